@@ -284,7 +284,7 @@ def run_harness(binary: Path, requests, timeout=900, env=None, chunk=None):
 RES_RE = re.compile(r"\(\s*(\d+)(?:%\w+)?\s*,\s*\(\s*(true|false)\s*,\s*(true|false)\s*,\s*(\d+)(?:%\w+)?\s*\)\s*\)")
 
 
-def eval_cases(scratch: Path, driver: str, terms, shard=40, timeout=1500, preamble=""):
+def eval_cases(scratch: Path, driver: str, terms, shard=40, timeout=400, preamble=""):
     """terms: list of Coq terms of type `case` of module Run.<driver>; `judge : case -> bool*bool*Z`
     (correspondence ok, property ok on observed output, known-finding region code).
     Returns list of (corr, ok, region) aligned with terms; a shard that fails to compile yields None
